@@ -142,6 +142,19 @@ func main() {
 	}
 	json.Unmarshal(out, &digs)
 	nviol := 0
+	// what the shared blob store holds, leaf by leaf in the order of storing (both users' messages: the blob store is one):
+	// decoded content (up to a final line break) -> where and under which transfer-encoding class it was submitted
+	held := map[string][]heldLeaf{}
+	leaf0 := make([]int, len(items))
+	count := 0
+	for idx, it := range items {
+		leaf0[idx] = count
+		for _, l := range leavesOf(it.tree) {
+			k := contentKey(l.Content)
+			held[k] = append(held[k], heldLeaf{count, encClass(l.CTE)})
+			count++
+		}
+	}
 	for idx, it := range items {
 		d, ok := digs[fmt.Sprintf("%05d.eml", idx)]
 		if !ok || it.fetch == "" {
@@ -151,6 +164,12 @@ func main() {
 		got := normDigest(d.Tree)
 		if !reflect.DeepEqual(want, got) && treeDiff(want, got, "") != "equal" {
 			what := fmt.Sprintf("message %s (via %s): the fetched message does not have the submitted part tree: %s", it.token, it.via, treeDiff(want, got, ""))
+			if onlyCrossEncodedLeaves(want, got, it, leaf0[idx], held) {
+				// class predicate of finding C02-F1: nothing differs but the content of leaves whose decoded content the same
+				// store already held under another transfer encoding when they were stored
+				rep.Finding("C02-F1", "cross-encoding de-duplication: "+what, []string{"msg " + hx.H(it.msg)})
+				continue
+			}
 			nviol++
 			if nviol <= 3 {
 				rep.Violate("impl-violation", "tree (independent MIME reader vs Props.C02.tree_roundtrip)", what, []string{"msg " + hx.H(it.msg)})
@@ -185,6 +204,90 @@ func main() {
 		rep.Sample(brief(normDigest(items[len(items)/2].tree.Digest())))
 	}
 	rep.Finish()
+}
+
+type heldLeaf struct {
+	pos int
+	enc string
+}
+
+func leavesOf(n *mimegen.Node) []*mimegen.Node {
+	if !n.Multi {
+		return []*mimegen.Node{n}
+	}
+	var out []*mimegen.Node
+	for _, c := range n.Children {
+		out = append(out, leavesOf(c)...)
+	}
+	return out
+}
+
+// encClass: the three ways decodeContentForHashing reads a part's text
+func encClass(cte string) string {
+	switch strings.ToLower(strings.TrimSpace(cte)) {
+	case "base64", "quoted-printable":
+		return strings.ToLower(strings.TrimSpace(cte))
+	}
+	return "identity"
+}
+
+func contentKey(b []byte) string { return strings.TrimRight(string(b), "\r\n") }
+
+// onlyCrossEncodedLeaves: the two digests have the same shape and differ only in the decoded content of leaves whose
+// content the store already held (from an earlier message, or an earlier leaf of this one) under another encoding class.
+func onlyCrossEncodedLeaves(want, got any, it *item, leaf0 int, held map[string][]heldLeaf) bool {
+	leaves := leavesOf(it.tree)
+	pos := 0
+	found := false
+	var walk func(a, b any) bool
+	walk = func(a, b any) bool {
+		la, oka := a.([]any)
+		lb, okb := b.([]any)
+		if !oka || !okb || len(la) == 0 || len(lb) == 0 || la[0] != lb[0] || len(la) != len(lb) {
+			return false
+		}
+		if la[0] == "leaf" {
+			if pos >= len(leaves) {
+				return false
+			}
+			n := leaves[pos]
+			pos++
+			other := false
+			for _, h := range held[contentKey(n.Content)] {
+				if h.pos < leaf0+pos-1 && h.enc != encClass(n.CTE) {
+					other = true
+				}
+			}
+			for i := 1; i < len(la); i++ {
+				if la[i] == lb[i] {
+					continue
+				}
+				if i == 5 && sameUpToFinalBreak(hx.UnH(fmt.Sprint(la[i])), hx.UnH(fmt.Sprint(lb[i]))) {
+					continue
+				}
+				if i != 5 || !other {
+					return false
+				}
+				found = true
+			}
+			return true
+		}
+		if la[1] != lb[1] {
+			return false
+		}
+		ca, _ := la[2].([]any)
+		cb, _ := lb[2].([]any)
+		if len(ca) != len(cb) {
+			return false
+		}
+		for i := range ca {
+			if !walk(ca[i], cb[i]) {
+				return false
+			}
+		}
+		return true
+	}
+	return walk(want, got) && found
 }
 
 func classNameOnCT(n *mimegen.Node) bool {
